@@ -122,7 +122,7 @@ ADD6 = {
  "C10": "Round 6: filter-in-place appends into storage of the caller's document are seen through merges.",
  "C11": "Round 6: module code fills no synchronised container or atomic counter.",
  "C12": "Round 6: field stores through pointer parameters are instantiated at the call sites (records of a package-level table handed out by pointer).",
- "C14": "Round 6: the InnerText collector rule (C04-V5) is shared: text values read from elements leave out hidden parts, the element asked for included.",
+ "C14": "Round 6: the InnerText collector rule (C04-V5) is shared: text values read from elements leave out hidden parts, the element asked for included. The schema.org getImage implementations agree: no image record without a URL.",
  "C15": "Round 6: MarkupInfo.Title is the unchanged Title() answer.",
  "C16": "Round 6: Apply runs the finders only for a page URL with a host.",
  "C19": "Round 6: frame addresses are resolved against the caller's page URL only (C06-U6 shared).",
